@@ -72,8 +72,9 @@ def allocs : Op R → Nat → List Nat
   -- Dense._matmat: cast(self.A, dtype) @ cast(X, dtype): two `astype` copies and the product
   | dense _ r c _, b => [r * c, c * b, r * b]
   | tri _ r c _ _, b => [r * c, c * b, r * b]
-  -- Sparse._matmat: scipy CSR @ dense
-  | sparse _ r _ _, b => [r * b]
+  -- Sparse._matmat: scipy CSR @ dense: scipy's contiguous copy of the operand and the result (round 3: the copy was
+  -- missing here although `peakMM` counted it — invisible below the allowance until the zoo was scaled: Sp36702 @ x)
+  | sparse _ r c _, b => [c * b, r * b]
   -- ScalarMul: c * v ; Identity: X or cast(X) ; Diagonal: diag[:, None] * X
   | scalar _ _ n, b => [n * b]
   | eye _ n, b => [n * b]
